@@ -26,6 +26,8 @@ type Prop struct {
 	Exec func(tier, job string) *engine.JobResult
 	// Post runs in the parent after all jobs (cross-job oracles); may add violations.
 	Post func(tier string, total *engine.JobResult)
+	// Pre runs in the parent before the jobs (cheap passes whose verdict must not depend on the jobs finishing).
+	Pre func(tier string, total *engine.JobResult)
 }
 
 var props = map[string]*Prop{}
@@ -222,14 +224,17 @@ func runCheck(p *Prop, tier string) int {
 	if pre != nil {
 		total.Merge(pre)
 	}
+	if p.Pre != nil {
+		p.Pre(tier, total)
+	}
 	res, done := engine.RunJobs([]string{p.ID, tier}, jobs, func() bool { return time.Now().After(dl) })
 	total.Merge(res)
 	exhaustive := done == len(jobs)
 	if !exhaustive {
 		total.Notes = append(total.Notes, fmt.Sprintf("internal deadline reached: %d of %d jobs completed (jobs are handed out in enumeration order)", done, len(jobs)))
 	}
-	if p.Post != nil && exhaustive {
-		p.Post(tier, total)
+	if p.Post != nil {
+		p.Post(tier, total) // (binding through the real binary: does not depend on every job having run)
 	}
 	engine.CleanScratch()
 	rep := &engine.Report{Property: p.ID, Tier: tier, Level: p.Level, Rule: p.Rule, Assumptions: p.Assumptions, Exhaustive: exhaustive, Result: total, Start: start}
